@@ -83,6 +83,7 @@ func parseSexps(src string) ([]*sexp, error) {
 }
 
 type specForm struct {
+	needs   []string // `;@ needs a b`: ship this axiom only if ALL of these symbols occur in the VC
 	text    string
 	defines []string
 	uses    map[string]bool
@@ -124,11 +125,45 @@ func LoadPrelude(files []string) (*SpecPrelude, error) {
 		if err != nil {
 			return nil, fmt.Errorf("%s: %v", f, err)
 		}
-		for _, fm := range forms {
+		// `;@ needs sym...` annotations apply to the next top-level form (matched by order of appearance)
+		needsFor := map[int][]string{}
+		{
+			idx := 0
+			depth := 0
+			var pending []string
+			for _, line := range strings.Split(string(data), "\n") {
+				t := strings.TrimSpace(line)
+				if strings.HasPrefix(t, ";@ needs ") && depth == 0 {
+					pending = strings.Fields(strings.TrimPrefix(t, ";@ needs "))
+					continue
+				}
+				code := line
+				if i := strings.Index(code, ";"); i >= 0 {
+					code = code[:i]
+				}
+				for _, ch := range code {
+					if ch == '(' {
+						if depth == 0 {
+							if pending != nil {
+								needsFor[idx] = pending
+								pending = nil
+							}
+						}
+						depth++
+					} else if ch == ')' {
+						depth--
+						if depth == 0 {
+							idx++
+						}
+					}
+				}
+			}
+		}
+		for fi, fm := range forms {
 			if !fm.isList || len(fm.list) == 0 {
 				continue
 			}
-			sf := &specForm{text: fm.String(), uses: map[string]bool{}, file: f}
+			sf := &specForm{text: fm.String(), uses: map[string]bool{}, file: f, needs: needsFor[fi]}
 			fm.atoms(sf.uses)
 			head := fm.list[0].atom
 			switch head {
@@ -185,7 +220,14 @@ func (sp *SpecPrelude) closure(used map[string]bool) []*specForm {
 				continue
 			}
 			take := false
-			if f.isAxiom {
+			if f.isAxiom && len(f.needs) > 0 {
+				take = true
+				for _, n := range f.needs {
+					if !need[n] {
+						take = false
+					}
+				}
+			} else if f.isAxiom {
 				for u := range f.uses {
 					if need[u] {
 						if _, isSpec := sp.sigs[u]; isSpec {
